@@ -430,6 +430,33 @@ def check_object(W, name, kind, obj, l, sig, seed, do_corrupt):
                 if back.idxs() != key.idxs():
                     msgs.append("secretkey: free-slot indices changed: %s vs %s" % (back.idxs(), key.idxs()))
         if do_corrupt:
+            # correlated corruption: TWO elements of the same group moved out of the subgroup by opposite torsion components (P + T and
+            # Q - T with T of small order): each is invalid on its own, their sum is not - a validation that is applied to an aggregate
+            # (a batched subgroup check) accepts the pair
+            for g in (1, 2):
+                same = [off for (off, gg) in pos if gg == g]
+                T = (alpha.small_order_points_g1()[0] if g == 1 else alpha.non_subgroup_points_g2()[0])
+                if g == 2:
+                    T = ref.pt_mul(T, ref.r, 2)          # the torsion component of a point outside G2 (kills the order-r part)
+                    if T is None:
+                        continue
+                elen = (48 if comp else 96) * g
+                for a_off, b_off in zip(same, same[1:]):
+                    okA, PA = ref.decode_model(data[a_off:a_off + elen], g, comp)
+                    okB, PB = ref.decode_model(data[b_off:b_off + elen], g, comp)
+                    if not (okA and okB) or PA is None or PB is None:
+                        continue
+                    A2, B2 = ref.pt_add(PA, T, g), ref.pt_add(PB, ref.pt_neg(T, g), g)
+                    if A2 is None or B2 is None or ref.in_subgroup(A2, g) or ref.in_subgroup(B2, g):
+                        continue
+                    d2 = bytearray(data)
+                    d2[a_off:a_off + elen] = ref.encode_point(A2, g, comp)
+                    d2[b_off:b_off + elen] = ref.encode_point(B2, g, comp)
+                    ok, _, _ = O.unmarshal(kind, bytes(d2), comp, True)
+                    stats["corruptions"] += 1
+                    if ok is not False:
+                        msgs.append("%s comp=%s: checked unmarshal accepts a buffer whose elements at offsets %d and %d are both outside the subgroup (their torsion components cancel) -> %s"
+                                    % (name, comp, a_off, b_off, ok))
             for (off, g) in pos:
                 for bad, why in bad_encodings(g, comp, seed):
                     d2 = data[:off] + bad + data[off + len(bad):]
